@@ -33,7 +33,7 @@ BOUNDS = ("ONLY the plain-Python geometry handed to the sampler is decided; vert
           "checked) hands arc() a centre at distance |r| on the side that gives the minor arc for "
           "r>0 and the major arc for r<0, for both directions. Direction.enforce: for every angle in "
           "(-2pi, 2pi) the result has the sign of the direction, |result| <= 2pi and differs from "
-          "the input by 0 or one full turn.")
+          "the input by 0 or one full turn. Plus CONCRETE (not solver-decided) history cells: a second circle / half arc / quarter arc, either direction, G90 or G91, on a tracer that has already traced a circle or arc in either direction or has rejected a circle (zero radius; leaving the axes box): the emitted polyline keeps the radius, is monotone in the selected direction, sweeps the expected angle and ends on target.")
 ASSUMPTIONS = [
     "the sampler entry points (helix/arc of the tracer instance, numpy hypot inside arc/helix) are "
     "replaced by recorders; everything after the recorded call is outside this check",
@@ -426,6 +426,115 @@ def _make_enforce(direction):
     return h
 
 
+PREFIXES = ["none", "circle-cw", "circle-ccw", "half-cw", "half-ccw", "rejected-circle",
+            "rejected-circle-bounds", "quarter-cw"]
+
+
+def _make_concrete_history(prefix, shape, direction, rel):
+    """CONCRETE (not solver-decided): a second tracer call on a tracer that has already traced
+    (or rejected) something. The real code with the real numpy runs; the emitted polyline of the
+    second call is checked against the circle it must follow: constant radius, monotone in the
+    selected direction, the expected sweep, end on target."""
+    from gscrib import GCodeBuilder
+    from ..fixture import Rec
+
+    def h():
+        if MODE.symbolic:
+            from ..shims import TOKENS
+            TOKENS.clear()
+        try:
+            g = GCodeBuilder(line_endings="\\n")
+            rec = Rec()
+            g.add_writer(rec)
+            g.move(x=0.0, y=0.0, z=0.0)
+            g.set_resolution(0.2)
+            C = (3.0, 0.0)
+
+            def do(kind, d):
+                g.set_direction(d)
+                if kind == "circle":
+                    g.trace.circle(C if True else None)
+                elif kind == "half":
+                    g.trace.arc((6.0, 0.0), C)
+                elif kind == "quarter":
+                    g.trace.arc((3.0, 3.0 if d == "clockwise" else -3.0), C)
+            try:
+                if prefix.startswith(("circle-", "half-", "quarter-")):
+                    kind, d = prefix.split("-")
+                    do(kind, "clockwise" if d == "cw" else "counter")
+                    if kind != "circle":           # come back to the origin
+                        g.move(x=0.0, y=0.0)
+                elif prefix == "rejected-circle":
+                    e = attempt(g.trace.circle, (0.0, 0.0))
+                    if e is None:
+                        return V("zero-radius-circle-accepted", "")
+                elif prefix == "rejected-circle-bounds":
+                    g.set_bounds("axes", (-1.0, -4.0, -1.0), (4.0, 4.0, 1.0))
+                    e = attempt(g.trace.circle, C)
+                    if e is None:
+                        return V("circle-leaving-the-bounds-accepted", "")
+                    g.set_bounds("axes", (-100.0, -100.0, -100.0), (100.0, 100.0, 100.0))
+                    g.move(x=0.0, y=0.0)
+            except Exception as e:  # noqa: BLE001
+                msg = f"{exc_name(e)}: {e}"
+                return V("history-prefix-raised", msg)
+            if rel:
+                g.set_distance_mode("relative")
+            n0 = len(split_lines(rec.text()))
+            try:
+                do(shape, direction)
+            except Exception as e:  # noqa: BLE001
+                msg = f"{exc_name(e)}: {e}"
+                return V("history-second-trace-raised", lambda: f"{shape} {direction} after {prefix}: {msg}")
+            m = RefMachine(tokens())
+            lines = split_lines(rec.text())
+            for line in lines[:n0]:
+                m.run_line(line)
+            start = (m.pos["X"], m.pos["Y"])
+            verts = []
+            for line in lines[n0:]:
+                m.run_line(line)
+                verts.append((m.pos["X"], m.pos["Y"]))
+            ctx = lambda: f"{shape} {direction} {'G91' if rel else 'G90'} after {prefix}: start {start!r}, {len(verts)} vertices, first {verts[:3]!r} last {verts[-2:]!r}"  # noqa: E731
+            if abs(start[0]) > 1e-3 or abs(start[1]) > 1e-3 or not verts:
+                return V("history-bad-start-or-no-vertices", ctx)
+            if shape == "circle":
+                target = (0.0, 0.0)
+            elif shape == "half":
+                target = (6.0, 0.0)
+            else:
+                target = (3.0, 3.0 if direction == "clockwise" else -3.0)
+            tol = 2e-3 if rel else 2e-4        # relative offsets accumulate output rounding
+            if abs(verts[-1][0] - target[0]) > tol or abs(verts[-1][1] - target[1]) > tol:
+                return V("history-trace-does-not-end-on-target", ctx)
+            sign = -1.0 if direction == "clockwise" else 1.0
+            prev = math.atan2(start[1] - C[1], start[0] - C[0])
+            total = 0.0
+            for v in verts:
+                r = math.hypot(v[0] - C[0], v[1] - C[1])
+                if abs(r - 3.0) > tol:
+                    return V("history-vertex-off-the-circle", lambda: f"radius {r!r} at {v!r}; {ctx()}")
+                a = math.atan2(v[1] - C[1], v[0] - C[0])
+                d = a - prev
+                while d > math.pi:
+                    d -= 2 * math.pi
+                while d < -math.pi:
+                    d += 2 * math.pi
+                if d * sign < -1e-3:
+                    return V("history-trace-not-monotone-in-the-selected-direction",
+                             lambda: f"step {d!r} at {v!r}; {ctx()}")
+                total += d
+                prev = a
+            want = {"circle": 2 * math.pi, "half": math.pi, "quarter": math.pi / 2}[shape] * sign
+            if abs(total - want) > 2e-2:
+                return V("history-trace-sweep-wrong", lambda: f"swept {total!r}, expected {want!r}; {ctx()}")
+            reached("checked")
+            return None
+        finally:
+            pass
+    return h
+
+
 def validate():
     fc = frame_condition()
     if fc:
@@ -470,6 +579,13 @@ def cells(tier):
                                     _make_arc_radius(direction, positive, rel, axis), budget_s=budget,
                                     must_reach=("captured",), entry="PathTracer.arc_radius"))
     for d in ("clockwise", "counter"):
+        for prefix in PREFIXES:
+            for shape in ("circle", "half", "quarter"):
+                for rel in (False, True):
+                    out.append(Cell(f"history-concrete|after={prefix}|{shape}|{d}|{'rel' if rel else 'abs'}",
+                                    _make_concrete_history(prefix, shape, d, rel), budget_s=60,
+                                    must_reach=("checked",), entry="PathTracer (second call on a used tracer)",
+                                    note="concrete, not solver-decided"))
         out.append(Cell(f"enforce|{d}", _make_enforce(d), budget_s=budget, must_reach=("ok",),
                         entry="Direction.enforce"))
     return out
